@@ -23,7 +23,8 @@ RULE = ("per op one Resolved / Schema tree shared by 8 goroutines x 6 rounds cal
 RULE += (" Widened (~35% of the ops): the shared Resolved is made with ResolveOptions.ValidateDefaults (harness argument validateDefaults) "
          "from a document that carries 2..7 `default` keywords — under properties, nested properties, items, $defs, allOf branches — each "
          "valid against its own subschema by construction, and (known finding D19: ValidateDefaults refuses any tree with a $dynamicRef) "
-         "no $dynamicRef; the goroutines start right after that Resolve.")
+         "no $dynamicRef; the goroutines start right after that Resolve, each with a burst of 4..16 back-to-back Validate passes over "
+         "all instances (harness argument burst).")
 TRUSTED = ["Go race detector (sampling, not proof)"]
 PREFILTER = vjudge.prefilter
 
@@ -109,6 +110,7 @@ def _with_validate_defaults(rng, ops):
             doc.set("allOf", al + [Obj([("properties", Obj([("h", _defaulted(rng))]))])])
         o["args"]["schema"] = doc
         o["args"]["validateDefaults"] = True
+        o["args"]["burst"] = rng.choice([4, 8, 16])
         o["args"]["insts"] = o["args"]["insts"] + [Obj([("a", "x1"), ("b", Num("1")), ("n", Obj([("m", "x")]))]), [Num("1"), "x", None]]
         o["meta"]["vd"] = True
     return ops
